@@ -423,6 +423,18 @@ def rejects(ctx):
     bad = ['{"a": [', 'a: b: c\n', 'a: [1, 2\n', '{1: a}\n', '? [a, b]\n: c\n', '{true: 1}\n', '{null: 1}\n', 'a: &x 1\nb: *x\n', '\t- a\n- b', '{"a": 1,}', '[1, 2', '"unterminated', '{a: 1}}',
            '- {1: a}\n', 'a: [{1: b}]\n', 'a:\n  - 443: open\n    name: x\n', '[[{true: 1}]]\n', 'a: [1, {null: 2}, 3]\n', 'a:\n  b:\n    - c:\n        - 1.5: x\n',
            'a: {b: {2: c}}\n', '- - - {[1]: 2}\n']
+    # a key that carries a short-form tag stands for a map ({Ref: a}), not for a string: every loader rejects it, for every tag
+    # of the tables, in flow maps, block maps, explicit keys and below sequences
+    try:
+        _pairs, _sets = tables.tag_tables()
+        tagnames = sorted(set(_sets['SINGLE_VALUE_FUNC_REF']) | set(_sets['SEQUENCE_VALUE_FUNC_REF']))
+    except Exception:
+        _j = json.load(open(os.path.join(VERIF, 'inventory', 'tag_tables.json')))
+        tagnames = sorted(set(_j['sets']['SINGLE_VALUE_FUNC_REF']) | set(_j['sets']['SEQUENCE_VALUE_FUNC_REF']))
+    tagged = []
+    for tn in tagnames:
+        tagged += ['{!%s a: 1}\n' % tn, 'Settings: {!%s a: 1, b: 2}\n' % tn, '!%s a: 1\n' % tn, '? !%s a\n: 1\n' % tn, 'x:\n  - !%s k: v\n' % tn, '? !%s [a, b]\n: 1\n' % tn]
+    bad = bad + tagged
     ops, meta = [], []
     for t in bad:
         for ld in ('cli', 'test', 'lib'):
@@ -440,6 +452,7 @@ def rejects(ctx):
             # non-string key or broken syntax being loaded as something else
             nonstring_key = t.startswith(('{1:', '? [', '{true:', '{null:')) or bool(re.search(r'\{(1|true|null|2|\[1\]): |443: |1\.5: ', t))
             broken = t in ('{"a": [', 'a: [1, 2\n', '[1, 2', '"unterminated', 'a: b: c\n')
+            nonstring_key = nonstring_key or t in tagged
             if nonstring_key or broken:
                 ctx.failing('the %s loader accepts %r as %s' % (ld, t, str(v)[:120]), {'class': 'accepts-bad-document', 'text': t, 'loader': ld, 'loaded': str(v)[:300]}, found=True)
     ctx.coverage['malformed_documents'] = len(bad)
